@@ -172,6 +172,22 @@ func kindPrograms() []prog {
 		fs = append(fs, pj.FE("p_enum", n, "E").Repeated().WithPacked(pk))
 		out = append(out, mk("packed="+pk, fs))
 	}
+	// repeated fields that carry field options which say nothing about packedness (alone and next to an explicit
+	// packed option): deprecated, json_name
+	for oi, opt := range []string{"deprecated = true", "deprecated = false"} {
+		var fs []*pj.Field
+		n := 1
+		for _, k := range pj.ScalarKinds {
+			fs = append(fs, pj.F("o_"+pj.KindName(k), n, k).Repeated().WithOption(opt))
+			n++
+			if pj.Packable(k) {
+				fs = append(fs, pj.F("oj_"+pj.KindName(k), n, k).Repeated().WithJSON("J"+pj.KindName(k)), pj.F("op_"+pj.KindName(k), n+1, k).Repeated().WithOption(opt).WithPacked("true"))
+				n += 2
+			}
+		}
+		fs = append(fs, pj.FE("o_enum", n, "E").Repeated().WithOption(opt), pj.FM("o_msg", n+1, "Inner").Repeated().WithOption(opt), pj.F("o_single", n+2, pj.Int32).WithOption(opt))
+		out = append(out, mk(fmt.Sprintf("unrelated-options/%d", oi), fs))
+	}
 	// maps: every key kind x {every scalar value kind, enum, message}
 	for _, k := range pj.MapKeyKinds {
 		var fs []*pj.Field
